@@ -399,9 +399,14 @@ def search_c09(results, tier, seed, broken):
         if (g[1][1].get(18) != i0.get(18)):
             hits.append(_hit(r, comp, streams, g[1][0], "same statement, same external randomness: proofs differ"))
         for var, why in ((2, "different external randomness"), (3, "same external randomness but different commitment blinding factors"),
-                         (4, "same external randomness, other commitment blinding factors with the same sum")):
+                         (4, "same external randomness, other commitment blinding factors with the same sum"),
+                         (6, "B~ = 2B, the same commitment points opened as (v-2, r+1) / (v+2, r-1): same transcript, same external randomness, same blinding sum")):
             if var not in g:
                 continue
+            ref = g[5][1] if var == 6 and 5 in g else i0
+            if var == 6 and 5 not in g:
+                continue
+            p0, s0 = comps(ref)
             p, sc = comps(g[var][1])
             if not p0 or not p:
                 continue
